@@ -180,6 +180,19 @@ CLAIMED.update({
         design="8/C17"),
 })
 
+CLAIMED.update({
+    "C20": dict(
+        text=("Theorems over a model of struct shapes (field name, setec tag, kind) and buffers with identities: tag parsing (name before the first comma, json iff a later part is json); the "
+              "requested names are exactly prefix/name per tagged field in field order; untagged fields are never parsed; a parsed field came from a tagged field with a non-empty name; "
+              "non-pointer/non-struct arguments, empty names, unsupported kinds without the json verb and structs without tags are rejected before any request; after Apply a bytes / string / "
+              "Secret field holds its kind's image of the secret's bytes; the bytes field's buffer identity is fresh, never the store's (bytes_private), while the pre-repair assignment is "
+              "proved to alias it (d4_original_aliases); Apply visits every field and reports exactly the failed ones. Fact: the bytes case clones. Tie: run-time struct types "
+              "(reflect.StructOf) through NewStore{Structs} and ParseFields+Apply; every []byte field is overwritten afterwards and the store re-read."),
+        note=COMMON_NOTE + "Modelled, not verified: package reflect, path.Join on clean names, encoding/json's verdict on json-tagged fields (oracle).",
+        technique="Lean 4 theorems (decision logic of tag/type validation; buffer-identity model for the copy discipline) + extracted fact + reflect-generated shapes as correspondence",
+        design="8/C20"),
+})
+
 NOT_YET = {}
 
 def manifest():
